@@ -2,18 +2,19 @@
 (* C07 - the malformed inputs: what is damaged (target), how (fault, with a variant), in which codec, and where in an
    otherwise valid stream it is placed.  "every" variants are expanded by the driver to every offset / length. *)
 EXTENDS Naturals, Sequences, FiniteSets, TLC, Json
-Codecs == {"h264", "h265"}
+Codecs == {"h264", "h265", "h264n", "h265n"}      \* n: the SDP carries no parameter sets, they arrive in band
+Base(c) == IF c \in {"h264", "h264n"} THEN "h264" ELSE "h265"
 Places == {"first", "mid", "burst"}        \* before any good packet | after the first group of pictures | three copies in mid stream
 VideoFaults(c) ==
-   IF c = "h264"
-   THEN {[fault |-> "empty", v |-> 0]} \cup {[fault |-> "nalhdr-only", v |-> t] : t \in {0, 1, 5, 24, 25, 26, 27, 28, 29, 30, 31}}
+   IF Base(c) = "h264"
+   THEN {[fault |-> "empty", v |-> 0]} \cup {[fault |-> "nalhdr-only", v |-> t] : t \in {0, 1, 5, 7, 8, 24, 25, 26, 27, 28, 29, 30, 31}}
         \cup {[fault |-> f, v |-> 0] : f \in {"stapa-size-beyond", "stapa-size-zero", "stapa-trailing-byte", "stapa-truncate-every",
                                               "fua-header-only", "fua-start-empty", "fua-end-without-start", "fua-truncate-every",
-                                              "single-truncate-every", "flip-every", "huge"}}
-   ELSE {[fault |-> "empty", v |-> 0], [fault |-> "one-byte", v |-> 0]} \cup {[fault |-> "nalhdr-only", v |-> t] : t \in {1, 19, 32, 48, 49, 50, 51, 63}}
+                                              "single-truncate-every", "flip-every", "huge", "paramset-truncate-every", "paramset-garbage", "paramset-short"}}
+   ELSE {[fault |-> "empty", v |-> 0], [fault |-> "one-byte", v |-> 0]} \cup {[fault |-> "nalhdr-only", v |-> t] : t \in {1, 19, 32, 33, 34, 48, 49, 50, 51, 63}}
         \cup {[fault |-> f, v |-> 0] : f \in {"ap-size-beyond", "ap-size-zero", "ap-trailing-byte", "ap-truncate-every",
                                               "fu-header-only", "fu-start-empty", "fu-end-without-start", "fu-truncate-every",
-                                              "single-truncate-every", "flip-every", "huge"}}
+                                              "single-truncate-every", "flip-every", "huge", "paramset-truncate-every", "paramset-garbage", "paramset-short"}}
 AudioFaults == {[fault |-> f, v |-> 0] : f \in {"empty", "one-byte", "auhdr-len-zero", "auhdr-len-odd", "auhdr-len-beyond", "au-size-beyond",
                                                 "au-size-zero", "au-many", "truncate-every", "flip-every"}}
 RtcpFaults == {[fault |-> f, v |-> 0] : f \in {"empty", "one-byte", "sr-truncate-every", "rr", "bye", "random", "sr-zero-rtptime"}}
